@@ -9,6 +9,51 @@ sys.path.insert(0, HERE)
 import runner  # noqa: E402
 
 
+def kernels_prestep(prop):
+    """C03-A: CrossHair over the pure string kernels (harness/kernels_crosshair.py); returns (rc, lines, summary)"""
+    import hashlib
+    import subprocess
+    import tempfile
+    fd, tmp = tempfile.mkstemp(suffix='.json', prefix='ksym_kernels_')
+    os.close(fd)
+    try:
+        c = subprocess.run([sys.executable, os.path.join(HERE, 'tools', 'kernels.py'), '--timeout', '90', '--json', tmp],
+                           capture_output=True, text=True)
+        print(c.stdout.strip()[-1500:])
+        try:
+            with open(tmp) as f:
+                ksum = json.load(f)
+        except Exception:
+            print('INCONCLUSIVE: CrossHair kernels produced no summary: %s' % c.stderr[-600:])
+            return 2, [], {'error': c.stderr[-600:]}
+    finally:
+        os.unlink(tmp)
+    known = {json.dumps(k['signature'], sort_keys=True): k for k in runner.load_known()
+             if k.get('property') == prop and k.get('status') == 'known'}
+    lines, rc = [], 0
+    viol = list(ksum['violations'])
+    for k in ksum['known']:
+        sig = json.dumps({'label': 'C03:kernel', 'kernel': k['kernel'], 'class': k['class']}, sort_keys=True)
+        if sig in known:
+            lines.append('KNOWN-FINDING: property=%s %s' % (prop, known[sig]['what']))
+        else:
+            viol.append(k)
+    os.makedirs(runner.REPLAYS, exist_ok=True)
+    for v in viol:
+        key = json.dumps([v['kernel'], v['args']])
+        path = os.path.join(runner.REPLAYS, '%s_kernel_%s.json' % (prop, hashlib.md5(key.encode()).hexdigest()[:10]))
+        with open(path, 'w') as f:
+            json.dump({'property': prop, 'module': 'kernel', 'kernel': v['kernel'], 'args': v['args'], 'detail': v['detail']}, f, indent=1)
+        lines.append('VIOLATION property=%s replay=%s' % (prop, path))
+        lines.append('  kernel=%s args=%r %s' % (v['kernel'], v['args'], v['detail']))
+        rc = 1
+    if rc == 0 and ksum['inconclusive']:
+        rc = 2
+        for i in ksum['inconclusive']:
+            lines.append('INCONCLUSIVE: kernel ' + i)
+    return rc, lines, ksum
+
+
 def main(argv):
     if len(argv) >= 2 and argv[0] == 'check':
         prop = argv[1]
@@ -31,12 +76,28 @@ def main(argv):
                 print(c.stderr[-800:])
                 return 2
             meta = dict(meta, assumptions=list(meta.get('assumptions', [])) + ['stub conformance run: ' + c.stdout.strip().splitlines()[-1]])
-        return runner.run_check(prop, tier, meta['module'], meta)
+        pre_rc, pre_lines = 0, []
+        if prop == 'C03':
+            pre_rc, pre_lines, ksum = kernels_prestep(prop)
+            meta = dict(meta, kernels=ksum)
+        rc = runner.run_check(prop, tier, meta['module'], meta)
+        for ln in pre_lines:
+            print(ln)
+        if 1 in (rc, pre_rc):
+            return 1
+        return 2 if 2 in (rc, pre_rc) else 0
     if len(argv) >= 2 and argv[0] == 'replay':
         runner._setup_path()
         import importlib
         with open(argv[1]) as f:
             rec = json.load(f)
+        if rec.get('module') == 'kernel':
+            import subprocess
+            c = subprocess.run([sys.executable, os.path.join(HERE, 'tools', 'kernels.py'), '--replay', argv[1]], capture_output=True, text=True)
+            print(c.stdout.strip())
+            if c.returncode == 1:
+                print('VIOLATION property=%s replay=%s' % (rec['property'], argv[1]))
+            return c.returncode
         mod = importlib.import_module(rec['module'])
         ok, detail = runner.replay_one(mod, rec['cfg'], rec['assignment'], rec['label'])
         print(json.dumps({'reproduced': ok, 'detail': detail, 'case': rec.get('rendered')}, indent=1, default=str))
